@@ -1,6 +1,7 @@
 open Model
 let table : (string * (val0 -> val0)) list = [
   "chk_c12_decode", chk_c12_decode;
+  "chk_c12_enforce", chk_c12_enforce;
   "chk_c07", chk_c07;
   "chk_c19_dispatch", chk_c19_dispatch;
   "chk_c19_mdquery", chk_c19_mdquery;
